@@ -138,22 +138,40 @@ func checkpointKey(c *core.Ctx) {
 			return tv.Value == nil || isTrue(info, r.Results[0]) // `return true` or `return <condition>`
 		})
 	}
-	// prefix: Sprintf("%s-", prefix) handed to the search, result returned
+	// prefix: "<prefix>-" (Sprintf or concatenation) handed to the search, result returned
 	okPrefix := false
-	if dfsCall != nil && len(dfsCall.Args) == 3 {
-		seed := strip(info, dfsCall.Args[2])
-		if o := objOf(info, seed); o != nil {
-			rhs, _ := defsOf(info, chose.Decl.Body, o)
+	var seedOK func(e ast.Expr, depth int) bool
+	seedOK = func(e ast.Expr, depth int) bool {
+		e = strip(info, e)
+		if depth > 3 {
+			return false
+		}
+		switch x := e.(type) {
+		case *ast.CallExpr:
+			if core.IsFunc(core.CalleeFunc(info, x), "fmt", "", "Sprintf") && len(x.Args) == 2 {
+				f, _ := core.StringConst(info, x.Args[0])
+				return f == "%s-" && objOf(info, x.Args[1]) == info.Defs[params[0]]
+			}
+		case *ast.BinaryExpr:
+			sep, isC := core.StringConst(info, x.Y)
+			return x.Op == token.ADD && isC && sep == "-" && objOf(info, strip(info, x.X)) == info.Defs[params[0]]
+		case *ast.Ident:
+			rhs, other := defsOf(info, chose.Decl.Body, objOf(info, x))
+			n := 0
 			for _, r := range rhs {
-				if r == nil {
-					continue
-				}
-				if call, ok := ast.Unparen(r).(*ast.CallExpr); ok && core.IsFunc(core.CalleeFunc(info, call), "fmt", "", "Sprintf") && len(call.Args) == 2 {
-					f, _ := core.StringConst(info, call.Args[0])
-					okPrefix = f == "%s-" && objOf(info, call.Args[1]) == info.Defs[params[0]]
+				if r != nil {
+					n++
+					if !seedOK(r, depth+1) {
+						return false
+					}
 				}
 			}
+			return n == 1 && other == 0
 		}
+		return false
+	}
+	if dfsCall != nil && len(dfsCall.Args) == 3 {
+		okPrefix = seedOK(dfsCall.Args[2], 0)
 	}
 	retOK := false
 	core.Inspect(chose.Decl.Body, func(n ast.Node) bool {
@@ -261,10 +279,70 @@ func checkpointKey(c *core.Ctx) {
 	// FilterKey: CheckpointKey prefix rejected before any list is consulted
 	finfo := filterKey.Pkg.TypesInfo
 	fg := cfgq.Of(c.Program, filterKey)
-	isPrefixTest := func(e ast.Expr) bool {
+	prefixTestOn := func(e ast.Expr, key types.Object) bool {
 		call, ok := ast.Unparen(e).(*ast.CallExpr)
 		return ok && core.IsFunc(core.CalleeFunc(finfo, call), "strings", "", "HasPrefix") && len(call.Args) == 2 &&
-			objOf(finfo, call.Args[0]) == filterKey.Obj.Type().(*types.Signature).Params().At(0) && core.ObjOf(finfo, call.Args[1]) == cpk
+			objOf(finfo, call.Args[0]) == key && core.ObjOf(finfo, call.Args[1]) == cpk
+	}
+	keyParam := types.Object(filterKey.Obj.Type().(*types.Signature).Params().At(0))
+	isPrefixTest := func(e ast.Expr) bool { return prefixTestOn(e, keyParam) }
+	// prefixFalse: the fact implies that key does NOT start with CheckpointKey,
+	// directly or because a same-package boolean helper applied to the key
+	// returns that value only when its own HasPrefix(key, CheckpointKey) is false.
+	prefixFalse := func(f cfgq.Fact) bool {
+		if !f.Val && isPrefixTest(f.Expr) {
+			return true
+		}
+		call, ok := ast.Unparen(f.Expr).(*ast.CallExpr)
+		if !ok {
+			return false
+		}
+		hfn := core.CalleeFunc(finfo, call)
+		if hfn == nil || hfn.Pkg() != filterKey.Obj.Pkg() || hfn == filterKey.Obj {
+			return false
+		}
+		hf := c.FnOf(hfn)
+		sig := hfn.Type().(*types.Signature)
+		if hf == nil || hf.Decl.Body == nil || sig.Results().Len() != 1 || sig.Params().Len() != len(call.Args) {
+			return false
+		}
+		var hkey types.Object
+		for i, a := range call.Args {
+			if objOf(finfo, a) == keyParam {
+				hkey = sig.Params().At(i)
+			}
+		}
+		if hkey == nil {
+			return false
+		}
+		hg := cfgq.Of(c.Program, hf)
+		direct := func(g cfgq.Fact) bool { return !g.Val && prefixTestOn(g.Expr, hkey) }
+		rets := hg.Points(func(n ast.Node) bool { _, ok := n.(*ast.ReturnStmt); return ok })
+		for _, p := range rets {
+			r := p.Node().(*ast.ReturnStmt)
+			if len(r.Results) != 1 {
+				return false
+			}
+			if tv := finfo.Types[r.Results[0]]; tv.Value != nil {
+				if isTrue(finfo, r.Results[0]) != f.Val {
+					continue // this return yields the other value
+				}
+			} else {
+				implied := false
+				for _, g := range cfgq.Facts(r.Results[0], f.Val) {
+					if direct(g) {
+						implied = true
+					}
+				}
+				if implied {
+					continue
+				}
+			}
+			if ok, _ := onlyVia(hg, p, direct); !ok {
+				return false
+			}
+		}
+		return len(rets) > 0
 	}
 	found := false
 	for _, b := range fg.CFG.Blocks {
@@ -281,7 +359,17 @@ func checkpointKey(c *core.Ctx) {
 		c.Check("R4.filter", "FilterKey/checkpoint-prefix-rejected", cond.Pos(), w == nil && w2 == nil,
 			"a key with prefix CheckpointKey must be rejected (FilterKey returns true): the per-shard checkpoint keys redis-shake-checkpoint-xxxx would otherwise be synced as user data", w...)
 	}
+	passRets := fg.Points(func(n ast.Node) bool {
+		r, ok := n.(*ast.ReturnStmt)
+		return ok && !(len(r.Results) == 1 && isTrue(finfo, r.Results[0]))
+	})
 	if !found {
+		allGuarded := len(passRets) > 0
+		for _, p := range passRets {
+			if ok, _ := onlyVia(fg, p, prefixFalse); !ok {
+				allGuarded = false
+			}
+		}
 		// positive evidence only: nothing in the package tests a key against the CheckpointKey prefix
 		anyTest := false
 		for _, f := range filterKey.Pkg.Syntax {
@@ -296,21 +384,21 @@ func checkpointKey(c *core.Ctx) {
 				return true
 			})
 		}
-		if anyTest {
+		switch {
+		case allGuarded:
+			c.Okf("R4.filter", "FilterKey/checkpoint-prefix-rejected", filterKey.Decl.Pos(), "every verdict other than 'rejected' is reached only when a helper established that the key does not start with CheckpointKey")
+		case anyTest:
 			c.Undecidedf("R4.filter", "FilterKey/checkpoint-prefix-rejected", filterKey.Decl.Pos(), "cannot see FilterKey rejecting keys with prefix CheckpointKey")
-		} else {
+		default:
 			c.Check("R4.filter", "FilterKey/checkpoint-prefix-rejected", filterKey.Decl.Pos(), false,
 				"nothing in the filter package tests strings.HasPrefix(key, CheckpointKey): the per-shard checkpoint keys (CheckpointKey-xxxx chosen by ChoseSlotInRange) pass the key filter and are synced as user data")
 		}
 	}
 	// every verdict other than "rejected" is reached only after the prefix test failed
 	k := 0
-	for _, p := range fg.Points(func(n ast.Node) bool {
-		r, ok := n.(*ast.ReturnStmt)
-		return ok && !(len(r.Results) == 1 && isTrue(finfo, r.Results[0]))
-	}) {
+	for _, p := range passRets {
 		k++
-		ok, w := onlyVia(fg, p, func(f cfgq.Fact) bool { return !f.Val && isPrefixTest(f.Expr) })
+		ok, w := onlyVia(fg, p, prefixFalse)
 		if ok || found {
 			c.Check("R4.filter", "FilterKey/prefix-before-pass", p.Node().Pos(), ok,
 				"FilterKey can let a key pass without first having rejected the CheckpointKey prefix: with a whitelist (or no blacklist entry) matching it, the per-shard checkpoint key is synced as user data", w...)
